@@ -43,6 +43,28 @@ def far64(bits):
     return int(np.array([y], dtype="<f8").view("<u8")[0])
 
 
+def ulp64(bits):
+    """the neighbouring binary64 number (one unit in the last place away): far below binary32 resolution, but a different
+    number — fields the library compares exactly (np.array_equal on float64) must tell them apart"""
+    x = float(np.array([bits], dtype="<u8").view("<f8")[0])
+    if not np.isfinite(x):
+        return far64(bits)
+    y = np.nextafter(x, np.inf if x >= 0 else -np.inf)
+    if not np.isfinite(y) or y == x:
+        y = np.nextafter(x, 0.0)
+    return int(np.array([y], dtype="<f8").view("<u8")[0])
+
+
+def ulp32(bits):
+    x = f32_of(bits)
+    if not np.isfinite(x):
+        return far(bits)
+    y = np.nextafter(np.float32(x), np.float32(np.inf) if x >= 0 else np.float32(-np.inf))
+    if not np.isfinite(y) or y == x:
+        y = np.nextafter(np.float32(x), np.float32(0.0))
+    return bits_of(np.float32(y))
+
+
 def sanitize(kind, v):
     """the property quantifies over blocks whose floats are numbers (NaN only as a wholly-missing frame)"""
     def fix(b):
@@ -101,6 +123,9 @@ def mutations(kind, fmt, v, rng):
     if kind == "CA":
         mut("distortion model", lambda w: w.__setitem__(1, (w[1] + 1) % 4))
         mut("volume size[0]", lambda w: w[2].__setitem__(0, far(w[2][0])))
+        mut("volume size[1] by one ulp", lambda w: w[2].__setitem__(1, ulp32(w[2][1])))
+        mut("volume rotation[4] by one ulp", lambda w: w[3].__setitem__(4, ulp32(w[3][4])))
+        mut("volume translation[2] by one ulp", lambda w: w[4].__setitem__(2, ulp32(w[4][2])))
     if kind == "EV":
         mut("start time", lambda w: w.__setitem__(1, far(w[1])))
     # --- channel numbers
@@ -188,16 +213,24 @@ def mutations(kind, fmt, v, rng):
                 mut("rotation of camera %d" % j, lambda w: w[ik][j][0].__setitem__(4, far64(w[ik][j][0][4])))
                 mut("last coefficient field of camera %d" % j, lambda w: w[ik][j][-2].__setitem__(len(w[ik][j][-2]) - 1, far64(w[ik][j][-2][-1])))
                 mut("viewport of camera %d" % j, lambda w: w[ik][j][-1][0].__setitem__(1, (w[ik][j][-1][0][1] + 1) if w[ik][j][-1][0][1] < 2 ** 31 - 1 else 0))
+                # every float64 field of the camera record, moved by one unit in the last place (these fields are compared exactly)
+                for fi in range(len(items[j]) - 1):
+                    if items[j][fi]:
+                        pos = rng.randrange(len(items[j][fi]))
+                        mut("field %d[%d] of camera %d by one ulp" % (fi, pos, j),
+                            lambda w, fi=fi, pos=pos: w[ik][j][fi].__setitem__(pos, ulp64(w[ik][j][fi][pos])))
             if kind == "EV":
                 mut("kind / values of event %d" % j, lambda w: (w[ik][j].__setitem__(3, w[ik][j][3] + [0x41200000]), w[ik][j].__setitem__(2, w[ik][j][2] + 1),
                                                                  w[ik][j].__setitem__(1, 1)))
                 if items[j][3]:
                     mut("a value of event %d" % j, lambda w: w[ik][j][3].__setitem__(0, far(w[ik][j][3][0])))
+                    mut("a value of event %d by one ulp" % j, lambda w: w[ik][j][3].__setitem__(0, ulp32(w[ik][j][3][0])))
     if kind == "D2" and v[0] > 0 and v[1] > 0:
         fr, cam = rng.randrange(v[1]), rng.randrange(v[0])
         mut("one point appended to cell (%d,%d)" % (fr, cam), lambda w: w[6][fr][cam].append([0x41200000, 0x41A00000]))
         if v[6][fr][cam]:
             mut("a coordinate in cell (%d,%d)" % (fr, cam), lambda w: w[6][fr][cam][0].__setitem__(0, far(w[6][fr][cam][0][0])))
+            mut("a coordinate in cell (%d,%d) by one ulp" % (fr, cam), lambda w: w[6][fr][cam][0].__setitem__(1, ulp32(w[6][fr][cam][0][1])))
             mut("cell (%d,%d) emptied" % (fr, cam), lambda w: w[6][fr].__setitem__(cam, []))
     return out
 
@@ -231,7 +264,7 @@ def run(chk):
     n = 500 if chk.tier == "quick" else 6000
     chk.rule = ("valid blocks of all nine types (floats are numbers; NaN only as a wholly-missing frame) paired with: the same "
                 "object, an independently built twin, decode(encode(a)), and a with exactly one change — a header scalar, a "
-                "channel number, a label, a sample / coordinate / coefficient moved far beyond tolerance, a present frame made "
+                "channel number, a label, a sample / coordinate / coefficient moved far beyond tolerance, an exactly-compared float (camera record fields, calibration volume, event values, 2D coordinates) moved by one unit in the last place, a present frame made "
                 "missing, one item / link / point appended, the last item removed; a == b and b == a on the implementation vs "
                 "Equality.v and vs the property's verdict; the same for blocks with 256 or more items; plus pairs of files built from such blocks; non-trivial = >= 1 item")
     cases, meta = [], []
